@@ -129,6 +129,14 @@ func c01(c *Ctx) {
 	pairs = append(pairs, c13PMT(c)...)
 	ck.A3(r, pairs)
 	ck.A3(r, c01Joints(c))
+	// the payload the muxer wrote is what the PES parser delimits: PES_packet_length bytes when it is not 0, everything up
+	// to the end of the unit when it is 0 — for every stream id, because the writer also emits 0 for units above 65535
+	// bytes (the whole-PES reference encodings of C12)
+	for _, sp := range c12SpecPairs(c) {
+		if sp.Name == "spec/pes-data" {
+			ck.A3(r, []layout.RTPair{sp})
+		}
+	}
 	for _, d := range ck.IP.Diag {
 		r.Unknown("A0", "diag/"+d, "", d)
 	}
@@ -142,6 +150,9 @@ func c01(c *Ctx) {
 	// what the demuxer delivers stays what was written: nothing in it aliases a buffer that later reads reuse (rule S3 of C16)
 	r.Floor("S3", "borrowed/owned byte-slice source sites", ownership.BorrowTaint(c.P, r), 10)
 	muxstate.AutoPID(c.P, r, muxstate.RuleAutoPID)
+	// "one PAT/PMT pair per table emission describing the configured streams": every emission serialises the live stream list
+	// and PCR PID, every change raises the dirty flag, the context map follows the stream list (the 'current' rules of C17)
+	muxstate.Current(c.P, r)
 	r.Floor("A3", "structure fields compared", countPrefix(r, "A3/", "/field/"), 80)
 }
 
